@@ -324,6 +324,13 @@ def run(ctx):
                         for x in first:
                             if isinstance(x, list):
                                 x.append("edited-by-the-caller")
+                    if f.draw(2) == 0 and hasattr(tok, "tokenize") and hasattr(tok, "read_from_tokens"):
+                        # the two-step route of the same reader: take the token queue, let a reader consume it
+                        queue = tok.tokenize()
+                        try:
+                            tok.read_from_tokens(queue)
+                        except Exception:
+                            pass
                     second = tok.parse()
                 except Exception as e:
                     raise Violation("C11/second-read-differs", f"PDDLTokenizer({label}).parse twice",
